@@ -183,6 +183,18 @@ def replay_ww(ctx: Ctx, recs: List[Dict[str, Any]], cost_den: int) -> None:
             wexp = (3 * cost * gamma.square() * 1.25 * lm[:, None].exp() / (2 * a)) ** (1 / 3)
             if not bool(((ww.width(x3) - wexp).abs() <= 1e-12 * (1 + wexp)).all()):
                 ctx.violation("ww:module-width", "WhalleyWilmott.width is not (3 c Gamma^2 S / (2 a))^(1/3)", {"cost": cost, "a": a})
+            # the SAME module after the underlier's cost rate has changed (a cost sweep re-using one derivative and one model):
+            # the band is the one of the cost in force now
+            for new_cost in (0.0, 4e-3):
+                stock.cost = new_cost
+                w2 = (3 * new_cost * gamma.square() * 1.25 * lm[:, None].exp() / (2 * a)) ** (1 / 3)
+                exp2 = torch.where((prev[:, None] - delta).abs() <= w2, prev[:, None], torch.where(prev[:, None] < delta, delta - w2, delta + w2))
+                got2 = ww(torch.cat([x3, prev[:, None]], dim=-1))
+                ctx.count(n=n)
+                if not bool(((got2 - exp2).abs() <= 1e-12).all()) or not bool(((ww.width(x3) - w2).abs() <= 1e-12 * (1 + w2)).all()):
+                    ctx.violation("ww:cost-changed", "a WhalleyWilmott module built before the underlier's cost rate was changed keeps the band of the old rate",
+                                  {"cost_at_construction": cost, "cost_now": new_cost, "a": a})
+                    break
 
 
 def replay_helpers(ctx: Ctx, recs: List[Dict[str, Any]]) -> None:
@@ -205,6 +217,25 @@ def replay_helpers(ctx: Ctx, recs: List[Dict[str, Any]]) -> None:
             ctx.count(n=1)
             if got.item() != frf(r["out"]):
                 ctx.violation("helper:bilerp", "bilerp is not lerp(lerp(i1,i2,w1), lerp(i3,i4,w1), w2)", {"case": c, "expected": frf(r["out"]), "observed": got.item()})
+            # the weights as tensors, broadcast against the corners in every documented way: 0-dim, same shape, and of HIGHER
+            # rank than the corners (interpolation points along new leading dimensions)
+            corners3 = [torch.full((3,), frf(c[k]), dtype=dtype) for k in ("i1", "i2", "i3", "i4")]
+            scalars = [torch.tensor(frf(c[k]), dtype=dtype) for k in ("i1", "i2", "i3", "i4")]
+            w1, w2 = frf(c["w1"]), frf(c["w2"])
+            for label, cs, wa, wb, shape in (("0-dim weights", corners3, torch.tensor(w1, dtype=dtype), torch.tensor(w2, dtype=dtype), (3,)),
+                                             ("weights of the corners' shape", corners3, torch.full((3,), w1, dtype=dtype), torch.full((3,), w2, dtype=dtype), (3,)),
+                                             ("weights (2, 3) over corners (3,)", corners3, torch.full((2, 3), w1, dtype=dtype), torch.full((2, 3), w2, dtype=dtype), (2, 3)),
+                                             ("weights (4, 1) over corners (3,)", corners3, torch.full((4, 1), w1, dtype=dtype), torch.full((4, 1), w2, dtype=dtype), (4, 3)),
+                                             ("weight vectors over scalar corners", scalars, torch.full((2,), w1, dtype=dtype), torch.full((2,), w2, dtype=dtype), (2,))):
+                try:
+                    gt = F.bilerp(*cs, wa, wb)
+                except Exception as e:
+                    ctx.violation("helper:bilerp:tensor-weights", f"bilerp raised {type(e).__name__} for broadcastable tensor weights ({label})", {"case": c, "error": repr(e)[:200]})
+                    continue
+                ctx.count(n=1)
+                if tuple(gt.shape) != shape or not bool((gt == frf(r["out"])).all()):
+                    ctx.violation("helper:bilerp:tensor-weights", f"bilerp with tensor weights ({label}) is not lerp(lerp(i1,i2,w1), lerp(i3,i4,w1), w2) broadcast over the weights",
+                                  {"case": c, "expected": frf(r["out"]), "expected_shape": list(shape), "observed": gt.flatten().tolist()[:4], "observed_shape": list(gt.shape)})
         elif r["kind"] == "box":
             u1 = 0.0 if c["j"] < 0 else 2.0 ** -c["j"]
             rad = math.sqrt(-2 * math.log(1e-10)) if c["j"] < 0 else math.sqrt(2 * c["j"] * LN2)
